@@ -1012,6 +1012,97 @@ pub fn fixtures_trace(r: &Ref, repo: &str, seed: u64) -> (Vec<Value>, Vec<String
             let args = json!({"proof": h, "key": key, "s": suite.name(), "hdr": d.abs_o(&oh), "ph": d.abs_o(&oph), "dmsgs": d.abs_v(&om), "didx": d.abs_i(&oi)});
             d.log("ProofVerify", args, got.class(), 0, json!({"fixture": got.class() == expect}));
         }
+        // ---- blind vectors: commitments are imported with the provenance the vector states, blind signatures are
+        // re-issued by the library (octets must equal the vector), proofs are imported and verified
+        let bbase = format!("{repo}/fixture_data_blind/{dir}");
+        let all = load(format!("{repo}/fixture_data_blind/messages.json"));
+        let (all_msgs, all_cms) = (hxs(&all["messages"]), hxs(&all["committedMessages"]));
+        let mut commit_handles: Vec<(Vec<u8>, usize)> = vec![];
+        let mut bsig_handles: Vec<(Vec<u8>, usize)> = vec![];
+        let mut files: Vec<_> = fs::read_dir(format!("{bbase}/signature")).unwrap().map(|e| e.unwrap().path()).collect();
+        files.sort();
+        for f in &files {
+            let j = load(f.to_str().unwrap().to_string());
+            let (hdr, msgs, cms) = (hx(&j["header"]), hxs(&j["messages"]), hxs(&j["committedMessages"]));
+            let cm = match j["commitmentWithProof"].as_str() {
+                None => 0,
+                Some(cb) => {
+                    let cb = hex::decode(cb).unwrap();
+                    match commit_handles.iter().find(|(b, _)| *b == cb) {
+                        Some((_, h)) => *h,
+                        None => {
+                            let oc = Some(cms.clone());
+                            let out = d.objs.len() + 1;
+                            d.objs.push(DObj::Commit(DCommit { tampered: false, bytes: cb.clone(), blind: hx(&j["proverBlind"]), s: suite, cms: cms.clone() }));
+                            let a = json!({"s": suite.name(), "cms": d.abs_v(&oc)});
+                            d.log("Commit", a, "Ok", out, json!({"len": cb.len(), "imported_from_fixture": true}));
+                            commit_handles.push((cb, out));
+                            out
+                        }
+                    }
+                }
+            };
+            let cbytes: OB = if cm == 0 { None } else { match &d.objs[cm - 1] { DObj::Commit(c) => Some(c.bytes.clone()), _ => unreachable!() } };
+            let (oh, om) = (opt(hdr.clone()), Some(msgs.clone()));
+            let got = lib::blind_sign(suite, &sk, &pk, &cbytes, &oh, &om, None);
+            let expect = hx(&j["signature"]);
+            let same = matches!(&got, Out::Ok(b) if b[..] == expect[..]);
+            let args = json!({"key": 1, "s": suite.name(), "cm": cm, "hdr": d.abs_o(&oh), "msgs": d.abs_v(&om)});
+            let out = d.objs.len() + 1;
+            let res = got.class();
+            if let Out::Ok(bytes) = got {
+                d.objs.push(DObj::Sig(DSig { tampered: false, bytes: bytes.clone(), s: suite, iface: Iface::Blind, key: 1, hdr: hdr.clone(), msgs: msgs.clone(), cm, cms: if cm == 0 { vec![] } else { cms.clone() } }));
+                bsig_handles.push((bytes, out));
+            }
+            d.log("BlindSign", args, res, out, json!({"fixture": same}));
+            if res != "Ok" {
+                continue;
+            }
+            let (blj, bl) = d.blind_of(cm);
+            let (om2, oc2) = (Some(msgs.clone()), Some(if cm == 0 { vec![] } else { cms.clone() }));
+            let gotv = lib::verify_blind(suite, &expect, &pk, &oh, &om2, &oc2, &bl, None);
+            let expv = if j["result"]["valid"].as_bool().unwrap() { "Ok" } else { "Err" };
+            let args = json!({"sig": out, "key": 1, "s": suite.name(), "hdr": d.abs_o(&oh), "msgs": d.abs_v(&om2), "cms": d.abs_v(&oc2), "bl": blj});
+            d.log("VerifyBlind", args, gotv.class(), 0, json!({"fixture": gotv.class() == expv}));
+        }
+        let mut files: Vec<_> = fs::read_dir(format!("{bbase}/proof")).unwrap().map(|e| e.unwrap().path()).collect();
+        files.sort();
+        for (fi, f) in files.iter().enumerate() {
+            let j = load(f.to_str().unwrap().to_string());
+            let sb = hx(&j["signature"]);
+            let Some((_, sh)) = bsig_handles.iter().find(|(b, _)| *b == sb).cloned() else {
+                skipped.push(format!("{dir}/blind proof[{fi}]: signature not issued by a signature vector"));
+                continue;
+            };
+            let DObj::Sig(sg) = d.objs[sh - 1].clone() else { unreachable!() };
+            let idx_map = |v: &Value| -> (Vec<usize>, Vec<Vec<u8>>) {
+                let mut pairs: Vec<(usize, Vec<u8>)> = v.as_object().map(|o| o.iter().map(|(k, h)| (k.parse().unwrap(), hex::decode(h.as_str().unwrap()).unwrap())).collect()).unwrap_or_default();
+                pairs.sort();
+                (pairs.iter().map(|p| p.0).collect(), pairs.into_iter().map(|p| p.1).collect())
+            };
+            let (didx, dmsgs) = idx_map(&j["revealedMessages"]);
+            let (dcidx, dcmsgs) = idx_map(&j["revealedCommittedMessages"]);
+            if sg.msgs != all_msgs || (sg.cm != 0 && sg.cms != all_cms) {
+                skipped.push(format!("{dir}/blind proof[{fi}]: signed vectors differ from messages.json"));
+                continue;
+            }
+            let (hdr, ph) = (hx(&j["header"]), hx(&j["presentationHeader"]));
+            let pb = hx(&j["proof"]);
+            let (blj, _bl) = d.blind_of(sg.cm);
+            let (oh, oph, om, oc, oi, oci) = (opt(hdr.clone()), opt(ph.clone()), Some(sg.msgs.clone()), Some(sg.cms.clone()), Some(didx.clone()), Some(dcidx.clone()));
+            let args = json!({"sig": sh, "key": 1, "s": suite.name(), "hdr": d.abs_o(&oh), "ph": d.abs_o(&oph), "msgs": d.abs_v(&om), "cms": d.abs_v(&oc),
+                "didx": d.abs_i(&oi), "dcidx": d.abs_i(&oci), "bl": blj});
+            let out = d.objs.len() + 1;
+            d.objs.push(DObj::Proof(DProof { tampered: false, bytes: pb.clone(), s: suite, iface: Iface::Blind, key: 1, hdr, ph, msgs: sg.msgs.clone(), cms: sg.cms.clone(), d: didx.clone(), cd: dcidx.clone() }));
+            d.log("BlindProofGen", args, "Ok", out, json!({"len": pb.len(), "imported_from_fixture": true}));
+            let l = j["L"].as_u64().unwrap() as usize;
+            let (odm, odcm) = (Some(dmsgs), Some(dcmsgs));
+            let got = lib::blind_proof_verify(suite, &pb, &pk, &oh, &oph, Some(l), &odm, &odcm, &oi, &oci, None);
+            let expv = if j["result"]["valid"].as_bool().unwrap() { "Ok" } else { "Err" };
+            let args = json!({"proof": out, "key": 1, "s": suite.name(), "hdr": d.abs_o(&oh), "ph": d.abs_o(&oph), "L": l,
+                "dmsgs": d.abs_v(&odm), "dcmsgs": d.abs_v(&odcm), "didx": d.abs_i(&oi), "dcidx": d.abs_i(&oci)});
+            d.log("BlindProofVerify", args, got.class(), 0, json!({"fixture": got.class() == expv}));
+        }
     }
     (d.events, skipped)
 }
